@@ -14,6 +14,20 @@ type TypeInfo struct {
 	FieldDefinitions        map[*ast.Field]*schema.FieldDefinition
 	ExpectedTypes           map[ast.Value]schema.Type
 	DefaultValues           map[ast.Value]interface{}
+
+	// Values nested within a list or object literal that is given for a scalar. A scalar's literal
+	// coercion may accept such literals, but no type is expected for anything within them.
+	ScalarLiteralValues map[ast.Value]struct{}
+}
+
+// isScalarLiteral reports whether a list or object literal is given for a scalar or nested within a
+// literal that is.
+func (ti *TypeInfo) isScalarLiteral(node ast.Value) bool {
+	if _, ok := ti.ScalarLiteralValues[node]; ok {
+		return true
+	}
+	_, ok := schema.UnwrappedType(ti.ExpectedTypes[node]).(*schema.ScalarType)
+	return ok
 }
 
 func namedType(s *schema.Schema, features schema.FeatureSet, name string) schema.NamedType {
@@ -48,6 +62,7 @@ func NewTypeInfo(doc *ast.Document, s *schema.Schema, features schema.FeatureSet
 		FieldDefinitions:        map[*ast.Field]*schema.FieldDefinition{},
 		ExpectedTypes:           map[ast.Value]schema.Type{},
 		DefaultValues:           map[ast.Value]interface{}{},
+		ScalarLiteralValues:     map[ast.Value]struct{}{},
 	}
 
 	var selectionSetScopes []schema.NamedType
@@ -65,6 +80,10 @@ func NewTypeInfo(doc *ast.Document, s *schema.Schema, features schema.FeatureSet
 			if expected, ok := schema.NullableType(ret.ExpectedTypes[node]).(*schema.ListType); ok {
 				for _, value := range node.Values {
 					ret.ExpectedTypes[value] = expected.Type
+				}
+			} else if ret.isScalarLiteral(node) {
+				for _, value := range node.Values {
+					ret.ScalarLiteralValues[value] = struct{}{}
 				}
 			}
 		case *ast.ObjectValue:
@@ -90,6 +109,10 @@ func NewTypeInfo(doc *ast.Document, s *schema.Schema, features schema.FeatureSet
 							}
 						}
 					}
+				}
+			} else if ret.isScalarLiteral(node) {
+				for _, field := range node.Fields {
+					ret.ScalarLiteralValues[field.Value] = struct{}{}
 				}
 			}
 		case *ast.Directive:
